@@ -41,8 +41,9 @@ Print Assumptions C12_passthrough.
    - not force_string: it is exactly one unquoted variable reference and the result is the word
      list looked up for it, verbatim (lookup_var = the referenced definition's resolved words, or
      the environment word; the last argument of lookup_var is the text diff_mode keeps for an
-     unresolved reference: "$name", or "$(name)" where the bare form would read differently, which is
-     why each fragment is handed the fragments that follow it);
+     unresolved reference (dtext): "$name", or "$(name)" where the bare form would read differently in
+     front of what the later fragments contribute, which is why each fragment is handed the fragments
+     that follow it);
    - force_string: the result is exactly ONE double-quoted word without line whose text is the
      concatenation of the literal fragments and of the looked-up words' values joined by one
      blank (or the error of the first failing lookup). *)
@@ -51,12 +52,12 @@ Theorem C12_shape : forall env rec diff chain stop w force frs,
   fragments_of_word w = Ok (force, true, frs) ->
   (force = false ->
      exists v, frs = [FVar v] /\ wq w = QN /\
-               resolve_word env rec diff chain stop w = lookup_var env rec diff chain stop w v (diff_text v []))
+               resolve_word env rec diff chain stop w = lookup_var env rec diff chain stop w v (dtext env rec diff chain stop w v []))
   /\ (force = true ->
      resolve_word env rec diff chain stop w =
        do ts <- mapM_tl (fun f nx => match f with
                                | FLit v => Ok v
-                               | FVar v => do ws <- lookup_var env rec diff chain stop w v (diff_text v nx);
+                               | FVar v => do ws <- lookup_var env rec diff chain stop w v (dtext env rec diff chain stop w v nx);
                                            Ok (vjoin_sp (map wv ws))
                                end) frs;
        Ok [mkword (List.concat ts) Q2 0]).
